@@ -9,7 +9,7 @@ import impl
 
 PID = "C20"
 LEAN_MODULES = ["BtcHd.Props.C20"]
-LEAN_MODULES_THOROUGH = ['BtcHd.Props.TrCli', 'BtcHd.Props.TrPaper']
+LEAN_MODULES_THOROUGH = ['BtcHd.Props.TrCli', 'BtcHd.Props.TrPaper', 'BtcHd.Props.TrText']
 TRUSTED_BASE = common.CORE_TRUSTED + [
     "PARTIAL: argparse tokenisation is modelled only for the canonical grammar (separate tokens, full option names, "
     "globals before the sub-command); the file system is abstracted to the class of the --file path; vectors outside "
